@@ -93,6 +93,7 @@ func instrHandlers(c *core.Ctx, r *core.Report, rule string) map[string]string {
 
 func c08(c *core.Ctx, r *core.Report) {
 	c08tuples(c, r)
+	c08fixpoint(c, r)
 	r.Explain("R08.dispatch: lang.InstrSwitch has, for every ssa.Instruction implementer, a case that calls the InstrOp method whose parameter type is that kind (DebugRef empty by design, MultiConvert by build mode).")
 	r.Explain("R08.operands: for every dispatched kind T, every operand field of T (table extracted from go/ssa's own Operands methods as compiled into Argot) is read on a value of type *ssa.T (resp. ssa.CallCommon, ssa.SelectState) inside the call-graph cone of the code responsible for T: its Do<T> handler on dataflow.IntraAnalysisState, the functions called by the makeEdgesAtInstruction case covering T, and for Defer the RunDefers simulation; reasoned exceptions are listed.")
 	r.Explain("R08.builtins: isHandledBuiltinCall and doBuiltinCall are partially evaluated over (builtin name x feasible SSA arity); handled => the handler returns true on every path (otherwise the call gets neither a builtin model nor call edges); every universe builtin that go/ssa keeps as a call is classified by name.")
@@ -412,6 +413,12 @@ func c08builtins(c *core.Ctx, r *core.Report) {
 	}
 	r.Analysed("analysis/dataflow.isHandledBuiltinCall")
 	r.Analysed("analysis/dataflow.doBuiltinCall")
+	isHfn, doBfn := c.Func("analysis/dataflow", "isHandledBuiltinCall"), c.Func("analysis/dataflow", "doBuiltinCall")
+	if isHfn == nil || doBfn == nil {
+		r.Fail("infra.anchor-unresolved", "R08.builtins|SSA", "", "SSA functions not found")
+		return
+	}
+	_ = p
 	// universe
 	var names []string
 	for _, n := range types.Universe.Names() {
@@ -429,10 +436,9 @@ func c08builtins(c *core.Ctx, r *core.Report) {
 		}
 		for _, a := range ar {
 			key := fmt.Sprintf("analysis/dataflow.doBuiltinCall|%s/%d", n, a)
-			e1 := &peEnv{info: p.TypesInfo, name: n, arity: a}
-			hf, ht, _ := e1.eval(isH.Body.List)
-			e2 := &peEnv{info: p.TypesInfo, name: n, arity: a, handled: tTrue}
-			df, dt, _ := e2.eval(doB.Body.List)
+			oracle := builtinOracle(n, a)
+			ht, hf := core.BoolResults(c, isHfn, 0, oracle)
+			dt, df := core.BoolResults(c, doBfn, 0, oracle)
 			switch {
 			case ht && !hf && dt && !df:
 				r.OK("R08.builtins", key, c.Pos(doB.Pos()), "handled and modelled on every path")
@@ -760,4 +766,96 @@ func c08monotone(c *core.Ctx, r *core.Report) {
 	} else {
 		r.Fail("infra.anchor-unresolved", "R08.monotone.prev|analysis/dataflow.populateInstrPrevMap", "", "not found")
 	}
+}
+
+// builtinOracle decides, for a call of the builtin `name` with `arity`
+// arguments, the conditions the predicate and the handler test (SSA): string
+// comparisons of the callee's name, comparisons of len(<call>.Args), IsInvoke()
+// (false for a builtin), nil tests of the callee value (non-nil).
+func builtinOracle(name string, arity int) func(v ssa.Value) (bool, bool) {
+	isNameValue := func(v ssa.Value) bool {
+		call, ok := v.(*ssa.Call)
+		if !ok {
+			return false
+		}
+		if call.Call.IsInvoke() {
+			return call.Call.Method.Name() == "Name"
+		}
+		sc := call.Call.StaticCallee()
+		return sc != nil && strings.HasSuffix(sc.Name(), "Name")
+	}
+	isArgsLen := func(v ssa.Value) bool {
+		call, ok := v.(*ssa.Call)
+		if !ok {
+			return false
+		}
+		b, ok := call.Call.Value.(*ssa.Builtin)
+		if !ok || b.Name() != "len" || len(call.Call.Args) != 1 {
+			return false
+		}
+		_, f := core.FieldOf(unload(call.Call.Args[0]))
+		return f != nil && f.Name() == "Args"
+	}
+	return func(v ssa.Value) (bool, bool) {
+		switch x := v.(type) {
+		case *ssa.Call:
+			if x.Call.IsInvoke() && x.Call.Method.Name() == "IsInvoke" {
+				return false, true
+			}
+			if sc := x.Call.StaticCallee(); sc != nil && sc.Name() == "IsInvoke" {
+				return false, true
+			}
+		case *ssa.BinOp:
+			for _, pair := range [][2]ssa.Value{{x.X, x.Y}, {x.Y, x.X}} {
+				k, isC := pair[1].(*ssa.Const)
+				if !isC {
+					continue
+				}
+				if k.Value != nil && k.Value.Kind() == constant.String && isNameValue(pair[0]) {
+					eq := constant.StringVal(k.Value) == name
+					switch x.Op {
+					case token.EQL:
+						return eq, true
+					case token.NEQ:
+						return !eq, true
+					}
+				}
+				if k.Value != nil && k.Value.Kind() == constant.Int && isArgsLen(pair[0]) {
+					n, _ := constant.Int64Val(k.Value)
+					l, r := int64(arity), n
+					if pair[0] == x.Y {
+						l, r = n, int64(arity)
+					}
+					switch x.Op {
+					case token.EQL:
+						return l == r, true
+					case token.NEQ:
+						return l != r, true
+					case token.LSS:
+						return l < r, true
+					case token.LEQ:
+						return l <= r, true
+					case token.GTR:
+						return l > r, true
+					case token.GEQ:
+						return l >= r, true
+					}
+				}
+				if k.IsNil() {
+					// the callee value of a builtin call is not nil
+					if _, f := core.FieldOf(unload(pair[0])); f != nil && f.Name() == "Value" {
+						return x.Op == token.NEQ, true
+					}
+				}
+			}
+		}
+		return false, false
+	}
+}
+
+func unload(v ssa.Value) ssa.Value {
+	if u, ok := v.(*ssa.UnOp); ok && u.Op == token.MUL {
+		return u.X
+	}
+	return v
 }
